@@ -249,13 +249,14 @@ def main(argv):
         'full_buffer_cases': sum(1 for c in sim_cases if any(4 in st['bufs'] for st in c.get('final', [])) or c.get('tag') == 'full'),
         'trace_streams': dict(collections.Counter(c['kernel'].get('tag', '?') for c in trace_cases)),
         'model_mismatches': len(mism1) + len(mism2), 'monitor_failures': len(sim_bad) + len(trace_bad),
-        'trace_cases_with_dropped_fields': len(trace_known),
     })
     rep.samples = [{'gpus': c['gpus'], 'freq': c['freq'], 'kernels': c['kernels'], 'events': c['nevents']} for c in sim_cases[:3]]
 
-    if trace_known:
-        rep.known_finding('trace-reader-drops-fields: ' + T.KNOWN_TEXT + ' (%d of %d files affected; theorem parse_print_dropped / parse_print_exact_refuted)'
-                          % (len(trace_known), len(trace_cases)))
+    if trace_known:  # no open known finding is left for C20: anything reported as known is unexpected
+        i, msg = trace_known[0]
+        c = dict(trace_cases[i])
+        c.pop('coq', None)
+        rep.known_finding(msg, replay_obj={'property': PROP, 'part': 'trace', 'what': msg, 'case': c})
 
     # ---- verdict
     if sim_bad:
